@@ -208,3 +208,35 @@ Qed.
 
 Print Assumptions C16_source_extend_with.
 Print Assumptions C16_extend_with_clone_panic.
+
+(* ---------- the loop of DrainFilter::next (behind drain_filter and retain) as /repo's source has it:
+   translated by tools/rs2v.py on every run (LeafActual.src_procs, DrainFilterWalkOk.v).  For every
+   state and script one call of next() is the function nrun — idx and del are both advanced before the
+   predicate is asked, so a panicking predicate leaves the element counted as removed (leaked, never
+   duplicated) — and nrun is VecModel.df_next, to which the C16 theorems about drain_filter apply ---------- *)
+From BV Require Import DrainFilterWalkOk.
+Theorem C16_source_drain_filter_next : forall n sc base ol idx del ti tv ts td tr extra,
+  N.to_nat (ol - idx) = n -> idx <= ol -> del <= idx -> base + ol < W -> (n <= List.length sc)%nat ->
+  let '(t, i2, d2, e, rest) := nrun base n idx del sc in
+  exists ti' tv' ts' td',
+    exec src_fns (DrainFilterWalkOk.lfuel n extra) (nenv base ol idx del ti tv ts td) tr sc nloop =
+    match e with
+    | NItem _ => XRet (nenv base ol i2 d2 ti' tv' ts' td') (List.app tr t) rest
+    | NBoom => XPanic (nenv base ol i2 d2 ti' tv' ts' td') (List.app tr t)
+    | NDone => XOk (nenv base ol i2 d2 ti' tv' ts' td') (List.app tr t) rest
+    end.
+Proof. exact next_is_nrun. Qed.
+
+Theorem C16_source_drain_filter_next_is_the_model : forall n ans base buf ol idx del fuel,
+  (ol - idx = n)%nat -> (idx <= ol)%nat -> (del <= idx)%nat -> (n <= List.length ans)%nat -> (n < fuel)%nat ->
+  let '(t, i2, d2, e, rest) := nrun base n (N.of_nat idx) (N.of_nat del) (map DrainFilterWalkOk.script_of ans) in
+  let '(buf', i', d', ans', r) := df_next buf ol idx del ans fuel in
+  buf' = apply_copies base t buf /\ N.of_nat i' = i2 /\ N.of_nat d' = d2 /\
+  r = res_of buf' base e /\ map DrainFilterWalkOk.script_of ans' = rest.
+Proof.
+  intros n ans base buf ol idx del fuel H1 H2 H3 H4 H5.
+  exact (nrun_is_df_next n ans base buf ol idx del fuel H1 H2 H3 H4 H5 (fun _ _ _ _ => I)).
+Qed.
+
+Print Assumptions C16_source_drain_filter_next.
+Print Assumptions C16_source_drain_filter_next_is_the_model.
